@@ -379,7 +379,7 @@ func (p *queryPlan) processClause(ctx context.Context, cls *semantic.GraphClause
 		})
 		// Data is new.
 		stmLimit := int64(0)
-		if len(p.stm.GraphPatternClauses()) == 1 && len(p.stm.GroupBy()) == 0 && len(p.stm.HavingExpression()) == 0 {
+		if p.canPushLimitDown(cls) {
 			stmLimit = p.stm.Limit()
 		}
 		tbl, err := simpleFetch(ctx, p.grfs, cls, lo, stmLimit, p.chanSize, p.tracer)
@@ -407,6 +407,28 @@ func (p *queryPlan) processClause(ctx context.Context, cls *semantic.GraphClause
 		}
 	})
 	return false, p.specifyClauseWithTable(ctx, cls, lo)
+}
+
+// canPushLimitDown returns true if the LIMIT of the statement can be applied by
+// the driver while fetching the triples of the clause. That is only the case
+// when the statement has a single clause, every triple returned by the driver
+// becomes a row of the result (the clause cannot discard triples), and the rows
+// are neither grouped, filtered nor sorted afterwards.
+func (p *queryPlan) canPushLimitDown(cls *semantic.GraphClause) bool {
+	if len(p.stm.GraphPatternClauses()) != 1 || len(p.stm.GroupBy()) != 0 || len(p.stm.HavingExpression()) != 0 || len(p.stm.OrderByConfig()) != 0 {
+		return false
+	}
+	if cls.PID != "" || cls.OID != "" || cls.PAnchorBinding != "" || cls.PAnchorAlias != "" ||
+		cls.OTypeAlias != "" || cls.OIDAlias != "" || cls.OAnchorBinding != "" || cls.OAnchorAlias != "" {
+		return false
+	}
+	for _, cnt := range cls.BindingsMap() {
+		if cnt > 1 {
+			// A repeated binding only matches triples with equal components.
+			return false
+		}
+	}
+	return true
 }
 
 // getBoundValueForComponent return the unique bound value if available on
@@ -490,7 +512,7 @@ func (p *queryPlan) addSpecifiedData(ctx context.Context, r table.Row, cls *sema
 	})
 
 	stmLimit := int64(0)
-	if len(p.stm.GraphPatternClauses()) == 1 && len(p.stm.GroupBy()) == 0 && len(p.stm.HavingExpression()) == 0 {
+	if p.canPushLimitDown(cls) {
 		stmLimit = p.stm.Limit()
 	}
 	tbl, err := simpleFetch(ctx, p.grfs, cls, lo, stmLimit, p.chanSize, p.tracer)
